@@ -110,14 +110,6 @@ def Obs.toJson (o : Obs) (re : Bool) : Json :=
 
 def errJson : Json := Json.mkObj [("err", Json.str "ERR:ValueError")]
 
-def mixedJson (d : Nat) : (k : Nat) → Mixed Int d k → Json
-  | 0, m => jList ((show Fib Int (T (d + 1) ⊕ T (d + 2)) from m).map (fun e => jList [jInt e.1,
-      match e.2 with
-      | .inl t => treeToJson (d + 1) t
-      | .inr t => treeToJson (d + 2) t]))
-  | k + 1, m => jList ((show Fib Int (Mixed Int d k) from m).map
-      (fun e => jList [jInt e.1, mixedJson d k e.2]))
-
 /-- number of stored elements of every fiber at depth `k` and whether some presented element exists /
     the active range is non-empty wherever something is presented -/
 def domAt (act : Option (Int × Int)) (dflt : Int) (d : Nat) : (k : Nat) → T (d + 1 + k) → Bool
@@ -164,25 +156,17 @@ def handleC08 (j : Json) : Except String Verdict := do
   let shape := fIntD j "shape" 0
   let reJ := (j.getObjVal? "re").toOption.filter (fun v => !v.isNull)
   -- the rest depends on the (literal) split depth because the tree type does
-  let finish (pre : Bool) (model : Option Obs) (clean : Option Obs) (spec : Option Obs) (chunk : Bool)
+  let finish (pre : Bool) (model : Option Obs) (spec : Option Obs) (chunk : Bool)
       (tags : List String) : Except String Verdict := do
     if !pre then return { agree := true, spec := true, tags := ["OUT_OF_MODEL"] }
     let re := reJ.isSome
     let mj := match model with | some o => o.toJson re | none => errJson
     let sj := match spec with | some o => o.toJson re | none => errJson
-    let cj := match clean with | some o => o.toJson re | none => errJson
-    let drift := mj != cj
     let specOk := impl == sj && chunk
     let why := if impl == sj then (if chunk then "" else "chunks") else s!"expected {sj.compress}"
-    -- active ranges are only specified for a properly split tree: when today's descent leaves a
-    -- mixed tree, the raw tree is what is compared
-    let agree := if drift then
-        (match impl.getObjVal? "tree", mj.getObjVal? "tree" with
-         | .ok a, .ok b => a == b
-         | _, _ => impl == mj)
-      else impl == mj
+    let agree := impl == mj
     let crash := if model.isNone then ["crash:min-empty"] else []
-    pure { agree, spec := specOk, model := mj, tags := tags ++ (if drift then ["drift"] else []) ++ crash, why }
+    pure { agree, spec := specOk, model := mj, tags := tags ++ crash, why }
   match k with
   | 0 =>
     let t ← fTree j "t" (d + 1)
@@ -197,8 +181,7 @@ def handleC08 (j : Json) : Except String Verdict := do
       let chunk := match obsAt act d (chunkF s act dflt d) 0 t with
         | some o => impl == o.toJson false
         | none => true
-      finish pre (obsAt act d (modelF s act dflt d) 0 t) (obsAt act d (modelF s act dflt d) 0 t)
-        (obsAt act d (specF s act dflt d) 0 t) chunk tags
+      finish pre (obsAt act d (modelF s act dflt d) 0 t) (obsAt act d (specF s act dflt d) 0 t) chunk tags
     | some rj =>
       let s2 ← parseSplit rj 0 0
       let G (F2 : C08Split → Bool) : Part (T d) → Option (List (Part (T d))) := fun p =>
@@ -209,20 +192,18 @@ def handleC08 (j : Json) : Except String Verdict := do
       let crashOp := match modelF s act dflt d t with
         | none => ["crash-op:" ++ opTag s.op]
         | some _ => if m.isNone then ["crash-op:" ++ opTag s2.op] else []
-      finish (pre && s2.ok) m m sp true (["resplit", opTag s.op ++ ">" ++ opTag s2.op] ++
+      finish (pre && s2.ok) m sp true (["resplit", opTag s.op ++ ">" ++ opTag s2.op] ++
         (if s.rel then ["rel-then-resplit"] else []) ++ crashOp)
   | 1 =>
     let t ← fTree j "t" (d + 2)
     let s ← parseSplit j shape 0
     let pre := wfB (d + 2) t && s.ok && domAt act dflt d 1 t
     let cfg : SplitCfg := { op := s.op, pre := s.pre, post := s.post, rel := s.rel, act := act }
-    let clean := obsAt act d (modelF s act dflt d) 1 t
-    let asis := (splitBelow cfg dflt d 0 t).map (mixedJson d 0)
-    let model := match asis, clean with
-      | none, _ => none
-      | some tj, some c => if tj == c.tree then some c else some { tree := tj, uact := [], lact := [] }
-      | some tj, none => some { tree := tj, uact := [], lact := [] }
-    finish pre model clean (obsAt act d (specF s act dflt d) 1 t) true
+    -- the tree is the model's `splitAt`; the active ranges are read off the same per-fiber splits
+    let model := match splitAt cfg dflt d 1 t, obsAt act d (modelF s act dflt d) 1 t with
+      | some r, some o => some { o with tree := treeToJson (d + 2 + 1) r }
+      | _, _ => none
+    finish pre model (obsAt act d (specF s act dflt d) 1 t) true
       (["depth1", opTag s.op] ++ (if presentedAt dflt d 1 t > 0 then ["some-presented"] else []) ++
         (if model.isNone then ["crash-op:" ++ opTag s.op] else []))
   | 2 =>
@@ -230,13 +211,11 @@ def handleC08 (j : Json) : Except String Verdict := do
     let s ← parseSplit j shape 0
     let pre := wfB (d + 3) t && s.ok && domAt act dflt d 2 t
     let cfg : SplitCfg := { op := s.op, pre := s.pre, post := s.post, rel := s.rel, act := act }
-    let clean := obsAt act d (modelF s act dflt d) 2 t
-    let asis := (splitBelow cfg dflt d 1 t).map (mixedJson d 1)
-    let model := match asis, clean with
-      | none, _ => none
-      | some tj, some c => if tj == c.tree then some c else some { tree := tj, uact := [], lact := [] }
-      | some tj, none => some { tree := tj, uact := [], lact := [] }
-    finish pre model clean (obsAt act d (specF s act dflt d) 2 t) true
+    -- the tree is the model's `splitAt`; the active ranges are read off the same per-fiber splits
+    let model := match splitAt cfg dflt d 2 t, obsAt act d (modelF s act dflt d) 2 t with
+      | some r, some o => some { o with tree := treeToJson (d + 2 + 2) r }
+      | _, _ => none
+    finish pre model (obsAt act d (specF s act dflt d) 2 t) true
       (["depth2", opTag s.op] ++ (if presentedAt dflt d 2 t > 0 then ["some-presented"] else []) ++
         (if model.isNone then ["crash-op:" ++ opTag s.op] else []))
   | _ => throw "C08: split depth > 2 not supported by the driver"
